@@ -1868,6 +1868,10 @@ class _FormatInferInstance(Visitor):
         # C's quantum can round to ``-0.0``.
         over_pos = exact.pos_bound > scope_af.pos_bound
         over_neg = exact.neg_bound < scope_af.neg_bound
+        if over_pos or over_neg:
+            # an overflowing value may land on C's largest value, which has
+            # C's precision rather than F's
+            prec = scope_af.prec
         lost_inf = (
             (exact.has_pos_inf and not scope_af.has_pos_inf)
             or (exact.has_neg_inf and not scope_af.has_neg_inf)
